@@ -1,5 +1,6 @@
 import Driver.Proto
 import SpsdkVerif.Model.Mboot
+import SpsdkVerif.Model.Sdp
 open SpsdkVerif Driver
 open SpsdkVerif.Mboot
 
@@ -8,6 +9,8 @@ open SpsdkVerif.Mboot
 structure St where
   host : Host := {}
   dev : Dev := { mem := [], maxPacket := 32 }
+  shost : Sdp.Host := {}
+  rom : Sdp.Rom := { mem := [] }
 
 def hx (b : Bytes) : String := if b.isEmpty then "-" else toHex b
 
@@ -95,7 +98,63 @@ def rxItemStr : Except HErr RxItem → String
   | .ok (.data b) => "ok:data:" ++ hx b
   | .error e => errStr e
 
+def sdpValStr : Sdp.Val → String
+  | .none => "ok:none"
+  | .bool b => "ok:" ++ boolStr b
+  | .bytes b => "ok:b:" ++ hx b
+  | .int n => s!"ok:n:{n}"
+
+def sdpResStr : Except Sdp.SErr Sdp.Val → String
+  | .ok v => sdpValStr v
+  | .error .conn => "E:conn"
+  | .error (.cmd v) => s!"E:cmd:{v}"
+  | .error .other => "E:other"
+  | .error .fuel => "E:fuel"
+
+def parseSdpOp : List String → Option Sdp.Op
+  | ["read", a, n, f] => do pure (.read (← a.toNat?) (← n.toNat?) (← f.toNat?))
+  | ["write", a, v, c, f] => do pure (.write (← a.toNat?) (← v.toNat?) (← c.toNat?) (← f.toNat?))
+  | ["write_file", a, d] => do pure (.writeFile (← a.toNat?) (← parseHex d))
+  | ["write_dcd", a, d] => do pure (.writeDcd (← a.toNat?) (← parseHex d))
+  | ["write_csf", a, d] => do pure (.writeCsf (← a.toNat?) (← parseHex d))
+  | ["skip_dcd"] => some .skipDcd
+  | ["jump_and_run", a] => do pure (.jumpAndRun (← a.toNat?))
+  | ["read_status"] => some .readStatus
+  | _ => none
+
 def stepLine (st : St) : List String → St × String
+  | ["sdp_cfg", ce] =>
+    match parseBool ce with
+    | some ce => ({ st with shost := { ce } }, "ok")
+    | none => (st, "bad-op")
+  | ["sdp_rom", mem, locked, err, forced] =>
+    match parseHex mem, parseBool locked, err.toNat?, parsePairs forced with
+    | some mem, some locked, some err, some forced => ({ st with rom := { mem, locked, errStatus := err, forced } }, "ok")
+    | _, _, _, _ => (st, "bad-op")
+  | ["sdp_live"] => ({ st with shost := { st.shost with peer := .live st.rom } }, "ok")
+  | ["sdp_script", cs] =>
+    match (if cs == "." then some [] else (cs.splitOn ",").mapM parseHex) with
+    | some cs => ({ st with shost := { st.shost with peer := .script cs } }, "ok")
+    | none => (st, "bad-op")
+  | "sdp_op" :: rest =>
+    match parseSdpOp rest with
+    | some op =>
+      let (r, h) := Sdp.runOp op st.shost
+      let tx := joinOr "," "." (h.txRev.reverse.map hx)
+      let rel := joinOr "," "." (h.relRev.reverse.map hx)
+      ({ st with shost := { h with txRev := [], relRev := [] } },
+        s!"{sdpResStr r} st={h.status} hab={h.hab} cs={h.cmdStatus} tx={tx} rel={rel}")
+    | none => (st, "bad-op")
+  | ["sdp_state"] =>
+    match st.shost.peer with
+    | .live r => (st, s!"mem={hx r.mem} ncmd={r.ncmd} jumped={r.jumped.getD 0} rx={hx st.shost.rx}")
+    | _ => (st, s!"norom rx={hx st.shost.rx}")
+  | ["sdp_cmdbytes", t, a, f, c, v] =>
+    match t.toNat?, a.toNat?, f.toNat?, c.toNat?, v.toNat? with
+    | some t, some a, some f, some c, some v =>
+      let cmd : Sdp.Cmd := ⟨t, a, f, c, v⟩
+      (st, if cmd.fits then "ok:" ++ hx cmd.encode else "E:other")
+    | _, _, _, _, _ => (st, "bad-op")
   | ["cfg", tr, usb, part, ce] =>
     match parseBool usb, parseBool part, parseBool ce with
     | some usb, some part, some ce =>
